@@ -132,16 +132,12 @@ package soyjs
 //@   noterm
 //@   pure
 //@   trustedensures[names-are-generated;C14] jsok(result)
-//@ func (*scope).looplimit
+//@ func (*scope).loopvars
 //@   props C14
 //@   nosafety
+//@   noterm
 //@   pure
-//@   trustedensures[names-are-generated;C14] jsok(result)
-//@ func (*scope).loopindex
-//@   props C14
-//@   nosafety
-//@   pure
-//@   trustedensures[names-are-generated;C14] jsok(result)
+//@   trustedensures[names-are-generated;C14] jsok(index) && jsok(limit)
 //@ func (*scope).makevar
 //@   props C14 C09 C13
 //@   nosafety
@@ -195,8 +191,13 @@ package soyjs
 //@     invariant[one-call-opened-per-directive-so-far;C16] opened == rangeindex + 1 && opened <= len(directives)
 //@   loop 2
 //@     invariant[one-call-closed-per-directive-so-far;C16] closed == rangeindex + 1 && closed <= len(directives) && opened == len(directives)
+// a loop function is generated only for a loop that exists (and is in scope):
+// without one there is no name to write, and what was written was not JavaScript
 //@ func (*state).visitFunction
 //@   like jsEmitter
+//@   at call (*state).js#0 assert[isFirst-names-an-enclosing-loop;C14] len(index) >= 1
+//@   at call (*state).js#1 assert[isLast-names-an-enclosing-loop;C14] len(index) >= 1
+//@   at call (*state).js#2 assert[index-names-an-enclosing-loop;C14] len(index) >= 1
 //@ func (*state).visitCall
 //@   like jsEmitter
 //@   loop 0
@@ -205,6 +206,7 @@ package soyjs
 //@   like jsEmitter
 //@ func (*state).visitForRange
 //@   like jsEmitter
+//@   at call (*scope).pushForRange#0 assert[the-loop-is-generated-only-for-one-to-three-range-arguments;C14] 1 <= len(rangeNode.Args) && len(rangeNode.Args) <= 3
 //@ func (*state).visitForeach
 //@   like jsEmitter
 //@ func (*state).visitMsg
